@@ -24,5 +24,20 @@ def table():
     return "\n".join(rows)
 
 
+
+
+def refresh_design():
+    p = os.path.join(ROOT, "DESIGN.md")
+    s = open(p).read()
+    a, b = "<!-- SEEDMATRIX:BEGIN -->", "<!-- SEEDMATRIX:END -->"
+    if a in s and b in s:
+        s = s[:s.index(a) + len(a)] + "\n" + table() + "\n" + s[s.index(b):]
+        open(p, "w").write(s)
+
+
 if __name__ == "__main__":
-    print(table())
+    import sys
+    if "--design" in sys.argv:
+        refresh_design()
+    else:
+        print(table())
